@@ -1046,6 +1046,8 @@ pub fn load(
     contexts.merge_provides();
 
     let parsing_time = start.elapsed();
+    #[cfg(kaspar030_laze_verif)]
+    crate::verif::fault("after_parse");
     let start = Instant::now();
 
     // convert Utf8PathBufs to PathBufs
@@ -1057,6 +1059,8 @@ pub fn load(
 
     let treestate = FileTreeState::new(filenames.iter());
     let stat_time = start.elapsed();
+    #[cfg(kaspar030_laze_verif)]
+    crate::verif::fault("after_stat");
 
     let stats = LoadStats {
         parsing_time,
